@@ -77,6 +77,12 @@ def fmt_table(table):
         if table else None
 
 
+def _root_name(expr):
+    while isinstance(expr, (ast.Subscript, ast.Attribute)):
+        expr = expr.value
+    return expr if isinstance(expr, ast.Name) else None
+
+
 def derived_names(func_node, seeds, through_calls=True):
     '''Names whose value derives from the seed names (assignments, loop
     targets, comprehension targets, append), flow-insensitive closure.'''
@@ -88,15 +94,23 @@ def derived_names(func_node, seeds, through_calls=True):
             src = None
             targets = []
             if isinstance(node, ast.Assign):
-                src, targets = node.value, node.targets
+                src, targets = node.value, [
+                    t if not isinstance(t, ast.Subscript) else
+                    _root_name(t) or t for t in node.targets]
             elif isinstance(node, ast.AugAssign):
                 src, targets = node.value, [node.target]
             elif isinstance(node, (ast.For, ast.comprehension)):
                 src, targets = node.iter, [node.target]
             elif isinstance(node, ast.Call) and call_name(node) in (
-                    'append', 'extend') and isinstance(
-                        receiver(node), ast.Name) and node.args:
-                src, targets = node.args[0], [receiver(node)]
+                    'append', 'extend', 'add', 'insert', 'update',
+                    'setdefault') and receiver(node) is not None and \
+                    node.args:
+                # d[k].append(x): the container d now depends on x
+                root = receiver(node)
+                while isinstance(root, (ast.Subscript, ast.Attribute)):
+                    root = root.value
+                if isinstance(root, ast.Name):
+                    src, targets = node.args[-1], [root]
             if src is None:
                 continue
             if names_loaded(src) & derived or any(
